@@ -54,8 +54,16 @@ impl ValuesOfCorrectType {
 
                 if let TypeDefinition::Scalar(scalar_type_def) = &type_def {
                     match (scalar_type_def.name.as_ref(), raw_value) {
-                        ("Int", Value::Int(_))
-                        | ("ID", Value::Int(_))
+                        // Int is a signed 32-bit integer
+                        ("Int", Value::Int(number))
+                            if number
+                                .as_i64()
+                                .map(|n| i32::try_from(n).is_ok())
+                                .unwrap_or(false) =>
+                        {
+                            return
+                        }
+                        ("ID", Value::Int(_))
                         | ("ID", Value::String(_))
                         | ("Float", Value::Int(_))
                         | ("Float", Value::Float(_))
